@@ -134,6 +134,7 @@ package fiber
 //@   pure
 //@   defines result == joinedPath(prefix, path)
 //@   ensures sub-app-itself-at-the-prefix: len(path) == 0 ==> result == prefix
+//@   ensures [C04] trimmed-prefix-then-slash-path: len(path) > 0 ==> joinShape(prefix, path, result)
 
 // The normalised mount prefix is the argument with trailing slashes removed, "/" for the root (the case
 // split is outside the quantifiers: an ite term inside them ends up in a trigger, which z3 rejects).
@@ -150,6 +151,8 @@ package fiber
 //@     invariant seen-are-listed-in-sub: forallS(k, seen(k) ==> indom(subApp.mountFields.appList, k))
 //@   atcall (*App).register: whole-subtree-registered: (last(@utils.TrimRight) == "" ==> subtreeListed(app, "/")) && (last(@utils.TrimRight) != "" ==> subtreeListed(app, last(@utils.TrimRight)))
 //@   atcall (*App).register: nothing-dropped: forallS(k, old(indom(app.mountFields.appList, k)) ==> indom(app.mountFields.appList, k))
+//@   atcall (*App).register: [C04] marker-under-normalised-prefix: isTrimmed(last(@utils.TrimRight), old(prefix)) && (last(@utils.TrimRight) == "" ==> pathRaw == "/") && (last(@utils.TrimRight) != "" ==> pathRaw == last(@utils.TrimRight))
+//@   atcall (*App).register: [C04] marker-of-the-sub-app: arg0 == app && group != nil && group.Prefix == pathRaw && group.app == old(subApp) && len(handlers) == 0 && len(methods) == 1 && methods[0] == "USE"
 
 // Mounting below a group: the same, relative to the group prefix, into the list of the group's app.
 //@ func (*Group).mount
@@ -163,6 +166,8 @@ package fiber
 //@     invariant seen-are-listed-in-sub: forallS(k, seen(k) ==> indom(subApp.mountFields.appList, k))
 //@   atcall (*App).register: whole-subtree-registered: (last(@utils.TrimRight) == "" ==> subtreeListed(grp.app, "/")) && (last(@utils.TrimRight) != "" ==> subtreeListed(grp.app, last(@utils.TrimRight)))
 //@   atcall (*App).register: nothing-dropped: forallS(k, old(indom(grp.app.mountFields.appList, k)) ==> indom(grp.app.mountFields.appList, k))
+//@   atcall (*App).register: [C04] marker-under-normalised-joined-prefix: isTrimmed(last(@utils.TrimRight), joinedPath(old(grp.Prefix), old(prefix))) && (last(@utils.TrimRight) == "" ==> pathRaw == "/") && (last(@utils.TrimRight) != "" ==> pathRaw == last(@utils.TrimRight))
+//@   atcall (*App).register: [C04] marker-of-the-sub-app: arg0 == grp.app && group != nil && group.Prefix == pathRaw && group.app == old(subApp) && len(handlers) == 0 && len(methods) == 1 && methods[0] == "USE"
 
 // Start-up completion of the list for sub-apps that mounted further apps after they were mounted themselves:
 // entries are only ADDED (under prefixes that are still free); an existing entry is never dropped or replaced,
